@@ -172,6 +172,14 @@ func c11L1(r *Run, rep *core.Report) {
 						}
 						_ = c
 					}
+					// a lock-free hit of a get-or-create: 'if v, ok := m.Load(key); ok { return v, true }' - a present key needs
+					// no lock in the load-if-exists operations (the reader itself is judged by P1); not so for the operations
+					// that replace or remove, whose result must be what the locked step saw
+					if !okRes && (name == "LoadOrStore" || name == "LoadOrCompute") {
+						if hitEdgeOfAnyReader(r, mm, ret.Block(), v, i) {
+							okRes = true
+						}
+					}
 					if !okRes && bad == "" {
 						bad = fmt.Sprintf("result #%d returned at %s is not the compute core's result for this call (it was obtained some other way, e.g. by an earlier lock-free read)", i, r.P.InstrPos(ret))
 					}
@@ -1397,7 +1405,10 @@ func helperInlineOrWalk(r *Run) func(*ssa.Function, ssa.CallInstruction) bool {
 }
 
 // onMissEdge: block b is entered only through the 'not found' edge of a test of the second result of the lookup call.
-func onMissEdge(b *ssa.BasicBlock, load *ssa.Call) bool {
+func onMissEdge(b *ssa.BasicBlock, load *ssa.Call) bool { return onEdgeOf(b, load, false) }
+
+// onEdgeOf: b's only predecessor branches on the found flag of load, and b is its hit (miss) successor.
+func onEdgeOf(b *ssa.BasicBlock, load *ssa.Call, hit bool) bool {
 	if len(b.Preds) != 1 {
 		return false
 	}
@@ -1425,7 +1436,38 @@ func onMissEdge(b *ssa.BasicBlock, load *ssa.Call) bool {
 	if neg {
 		missIdx = 0
 	}
+	if hit {
+		return p.Succs[1-missIdx] == b
+	}
 	return p.Succs[missIdx] == b
+}
+
+// hitEdgeOfAnyReader: block b is entered on the found edge of a call of the map's lock-free reader (Load, or a second
+// reader judged by P1), and v is that call's value (result 0) or the constant true / its found flag (result 1).
+func hitEdgeOfAnyReader(r *Run, mm *core.MapModel, b *ssa.BasicBlock, v ssa.Value, idx int) bool {
+	readers, _ := secondReaders(r, mm)
+	isReader := map[*ssa.Function]bool{mm.Methods["Load"]: true}
+	for _, f := range readers {
+		isReader[f] = true
+	}
+	found := false
+	core.Instrs(b.Parent(), func(in ssa.Instruction) {
+		c, ok := in.(*ssa.Call)
+		if !ok || !isReader[core.Callee(c)] || !onEdgeOf(b, c, true) {
+			return
+		}
+		switch x := v.(type) {
+		case *ssa.Extract:
+			if x.Tuple == ssa.Value(c) && x.Index == idx {
+				found = true
+			}
+		case *ssa.Const:
+			if bv, isB := core.ConstBool(x); isB && bv && idx == 1 {
+				found = true
+			}
+		}
+	})
+	return found
 }
 
 func missEdgeOfAnyLoad(mm *core.MapModel, b *ssa.BasicBlock) bool {
